@@ -105,6 +105,7 @@ CHECKS["C21"] = dict(
     src="C21.cpp", level="model_checking",
     entries=[
         dict(name="harness_c21_mul", quick={"nmax": 2, "B": 7, "nonneg": 1}, thorough={"nmax": 3, "B": 15, "nonneg": 0}),
+        dict(name="harness_c21_mul_edge", quick={"nmin": 3, "nmax": 3, "B": 7, "lo": 6}, thorough={"nmin": 3, "nmax": 4, "B": 15, "lo": 13}),
         dict(name="harness_c21_linear", quick={"B": 1000}, thorough={"B": 1000000}),
         dict(name="harness_c21_pow_div", quick={"B": 1, "kmax": 3, "enum2": 1}, thorough={"B": 3, "_wall": 2400}),
         dict(name="harness_c21_pow_high", quick={"B": 2, "nk": 3, "enum2": 1}, thorough={"B": 3, "nk": 5, "enum2": 1}),
@@ -113,7 +114,7 @@ CHECKS["C21"] = dict(
         dict(name="harness_c21_urat", quick={"B": 4}, thorough={"B": 10}),
     ],
     anchors=["SymEngine::UIntDict::mul", "SymEngine::UIntDict::eval_bit", "SymEngine::divides_upoly", "SymEngine::pow_upoly", "SymEngine::URatPoly"],
-    bounds="UIntPoly: all length pairs up to 3x3 terms with symbolic coefficients 0<=c<=7 (quick; thorough: -15..15 all signs and zeros) against the schoolbook convolution (Kronecker substitution is executed symbolically); add/sub/neg/eval/diff/eq on 3-term polynomials |c|<=1000; pow up to 2 (thorough 3), powers 7, 6, 5 (thorough also 11, 13) of a0 + a1 x with |a|<=2 (3) (coefficients enumerated as paths), and exact division (p*q)/q on 2-term polynomials with coefficients |c|<=1 (3), exact division by 3-term divisors |c|<=1 (2) incl. cancelling products (quick tier: the second operand and the leading coefficient are enumerated as paths, the first operand is symbolic); from_basic/as_symbolic round trip; URatPoly products and sums with denominators 1..3",
+    bounds="UIntPoly: all length pairs up to 3x3 terms with symbolic coefficients 0<=c<=7 (quick; thorough: -15..15 all signs and zeros) against the schoolbook convolution (Kronecker substitution is executed symbolically); 3x3-term products with all coefficients symbolic in [6,7] (thorough: 3..4 terms in [13,15]), the digit-width boundary of the substitution; add/sub/neg/eval/diff/eq on 3-term polynomials |c|<=1000; pow up to 2 (thorough 3), powers 7, 6, 5 (thorough also 11, 13) of a0 + a1 x with |a|<=2 (3) (coefficients enumerated as paths), and exact division (p*q)/q on 2-term polynomials with coefficients |c|<=1 (3), exact division by 3-term divisors |c|<=1 (2) incl. cancelling products (quick tier: the second operand and the leading coefficient are enumerated as paths, the first operand is symbolic); from_basic/as_symbolic round trip; URatPoly products and sums with denominators 1..3",
     outside=["more than 3 terms", "UExprPoly", "multi-limb coefficients"],
 )
 
